@@ -161,12 +161,17 @@ func makePlan(c gen.C08Case, base map[string]rec) *plan {
 		if !inBase {
 			p.implicit[loc(d)] = true
 		}
-		// an ancestor (or, unless it is an rpc input/output, the node itself) was removed
+		// an ancestor was removed at some point (whatever was below it is gone for good, also when an
+		// rpc input / output itself came back empty), or the node itself is gone and is not an rpc
+		// input / output
 		lost := false
-		for r := range gone {
-			if below(loc(d), r) && !(loc(d) == r && isRpcIO(r, base)) {
+		for r := range p.emptied {
+			if loc(d) != r && below(loc(d), r) {
 				lost = true
 			}
+		}
+		if gone[loc(d)] && !isRpcIO(loc(d), base) {
+			lost = true
 		}
 		if lost {
 			p.missing = append(p.missing, d.Arg+" (removed by an earlier not-supported)")
@@ -358,11 +363,9 @@ func evaluate(items []gen.C08Case, f *lib.Flags, res *lib.Result, st *stats, ver
 			continue
 		}
 		// (i) model = Go, on both runs
-		modelOK := true
 		for k, o := range []rescorr.Outcome{ow, owo} {
 			if o.Outside != "" {
 				st.outside++
-				modelOK = false
 				continue
 			}
 			g := lib.Project(o.Go.Dump, keys, true)
@@ -381,7 +384,6 @@ func evaluate(items []gen.C08Case, f *lib.Flags, res *lib.Result, st *stats, ver
 					What: "resolver differs from the model (" + []string{"with", "without"}[k] + " the deviating modules): " + d, Replay: it})
 			}
 		}
-		_ = modelOK
 		if rescorr.HasErrors(owo.Go.Dump) {
 			st.baseErr++
 			if f := strings.Split(owo.Go.Dump[0], ":"); len(f) > 0 {
@@ -690,6 +692,9 @@ func main() {
 		"distinct_nontrivial = distinct cases (combination name, or texts) whose base processes cleanly and on which the verdict was fully evaluated: " +
 		"either an error was demanded and reported, or frame and every target record were compared with the specification"
 	res.Exhaustive = false
+	res.Notes = append(res.Notes,
+		"RFC-invalid deviations outside the property's list of reportable conditions (add of an existing config/mandatory/bound/units/type, replace of an absent property, delete of config/mandatory that is absent or different, add/replace/delete after not-supported in one deviation) are applied by the library; they are compared with the RFC effect function (Props/C08 deviate_code_exact) and counted under rfc_invalid_outside_claim_*",
+		"deviate delete of a leaf-list default is refused by the library as unsupported (pinned by its own unit test); the runner expects an error there")
 	res.Distribution["exhaustive_combinations"] = nEx
 	res.Distribution["exhaustive_combinations_evaluated"] = len(st.combos)
 	res.Distribution["random_cases"] = n
